@@ -29,4 +29,42 @@ Definition run_qcase (n : nat) (c : qcase) : string :=
         end
     end in
   "CASE " ++ show_nat n ++ " M " ++ model ++ " S R " ++ spec.
+
+(* the(...): consume the rows; fail on the second, fail if there is none (The._evaluate_) *)
+Definition the_outcome (rows : list (list val)) : string :=
+  match the_of rows with
+  | ONone => "X NoSolutionFound"
+  | OValue r => "R " ++ show_row r
+  | OMany => "X MultipleSolutionFound"
+  end.
+
+Definition run_qcase_the (n : nat) (c : qcase) : string :=
+  let d := dom_of (qc_doms c) in
+  let spec := the_outcome (spec_rows (qc_heap c) d (qc_binders c) (qc_sel c) (qc_cond c)) in
+  let model :=
+    match qc_cond c with
+    | None => the_outcome (run_query (qc_heap c) d (qc_sel c) None)
+    | Some sc =>
+        match elab sc with
+        | Some ic => the_outcome (run_query (qc_heap c) d (qc_sel c) (Some ic))
+        | None => "X elab"
+        end
+    end in
+  "CASE " ++ show_nat n ++ " M " ++ model ++ " S " ++ spec.
+
+(* metamorphic pairs (C18): the model runs the rewritten query, the specification answers the original one *)
+Definition run_qpair (n : nat) (orig variant : qcase) : string :=
+  let d := dom_of (qc_doms orig) in
+  let spec := show_rows (spec_rows (qc_heap orig) d (qc_binders orig) (qc_sel orig) (qc_cond orig)) in
+  let dv := dom_of (qc_doms variant) in
+  let model :=
+    match qc_cond variant with
+    | None => "R " ++ show_rows (run_query (qc_heap variant) dv (qc_sel variant) None)
+    | Some sc =>
+        match elab sc with
+        | Some ic => "R " ++ show_rows (run_query (qc_heap variant) dv (qc_sel variant) (Some ic))
+        | None => "X elab"
+        end
+    end in
+  "CASE " ++ show_nat n ++ " M " ++ model ++ " S R " ++ spec.
 Close Scope string_scope.
